@@ -18,26 +18,72 @@ inline uint64_t bij(uint64_t x) {
 }
 
 // ------------------------------------------------------------------ bound chain
+// Accessor order.  A read-out calls get_estimate / get_lower_bound(1..3) / get_upper_bound(1..3) (and
+// get_composite_estimate where it exists) in a random order drawn from a per-case stream (seed_order(r) at the
+// start of run_case), so that every accessor is regularly the FIRST call after a mutation (lazily rebuilt state
+// must not depend on which accessor triggers the rebuild).  One read-out in four calls a single accessor only.
+// Then everything is read again in a fixed order; a value that differs between the two passes is recorded in
+// Chain::unstable and reported by check_chain as <family>|accessor-order|value-changes-when-read-again.
+inline uint64_t& order_state() { static uint64_t s = 0x6f72646572ULL; return s; }
+inline uint64_t order_next() { return Rng::splitmix(order_state()); }
+inline void seed_order(Rng& r) { order_state() = r.next(); }
+static const char* const ACC_NAME[8] = {"est", "lb", "lb", "lb", "ub", "ub", "ub", "composite"};
+
 struct Chain {
   double est = 0;
   double lb[4] = {0, 0, 0, 0};   // index = number of std devs (1..3)
   double ub[4] = {0, 0, 0, 0};
+  double comp = std::numeric_limits<double>::quiet_NaN();   // composite estimate (HLL only)
+  int first = -1;                // accessor called first (index into ACC_NAME)
+  bool single = false;           // first pass called that accessor only
+  std::string unstable;          // non-empty: values that changed between the first (random order) and second pass
   std::string to_string() const {
     return "lb3=" + str(lb[3]) + " lb2=" + str(lb[2]) + " lb1=" + str(lb[1]) + " est=" + str(est) +
            " ub1=" + str(ub[1]) + " ub2=" + str(ub[2]) + " ub3=" + str(ub[3]);
   }
 };
 
-template<typename S> Chain read_chain(const S& s) {
-  Chain c;
+template<bool COMP, typename S> Chain read_chain_impl(const S& s) {
+  const int N = COMP ? 8 : 7;
+  int perm[8] = {0, 1, 2, 3, 4, 5, 6, 7};
+  for (int i = N; i > 1; --i) std::swap(perm[i - 1], perm[order_next() % static_cast<uint64_t>(i)]);
+  const int len = (order_next() & 3) == 0 ? 1 : N;
+  auto call = [&](int a) -> double {
+    if (a == 0) return s.get_estimate();
+    if (a <= 3) return s.get_lower_bound(static_cast<uint8_t>(a));
+    if (a <= 6) return s.get_upper_bound(static_cast<uint8_t>(a - 3));
+    if constexpr (COMP) return s.get_composite_estimate(); else return 0.0;
+  };
+  double v1[8];
+  for (int i = 0; i < len; ++i) v1[perm[i]] = call(perm[i]);
+  Chain c; c.first = perm[0]; c.single = len == 1;
   c.est = s.get_estimate();
   for (uint8_t sd = 1; sd <= 3; ++sd) { c.lb[sd] = s.get_lower_bound(sd); c.ub[sd] = s.get_upper_bound(sd); }
+  if constexpr (COMP) c.comp = s.get_composite_estimate();
+  for (int i = 0; i < len; ++i) {
+    const int a = perm[i];
+    const double v2 = a == 0 ? c.est : (a <= 3 ? c.lb[a] : (a <= 6 ? c.ub[a - 3] : c.comp));
+    if (!(v1[a] == v2) && !(std::isnan(v1[a]) && std::isnan(v2)))
+      c.unstable += std::string(" ") + ACC_NAME[a] + (a >= 1 && a <= 6 ? std::to_string(a <= 3 ? a : a - 3) : std::string()) + "(call #" + std::to_string(i + 1) + " of first pass)=" + str(v1[a]) + " later=" + str(v2);
+  }
+  count(std::string("first_accessor_") + ACC_NAME[perm[0]]);
+  if (len == 1) count("single_accessor_readouts");
   return c;
+}
+template<typename S> Chain read_chain(const S& s) { return read_chain_impl<false>(s); }
+template<typename S> Chain read_chain_c(const S& s) { return read_chain_impl<true>(s); }   // types with get_composite_estimate
+// floor counters: which accessor was the first call on a union object right after a merge
+inline void count_first_after_merge(const Chain& c) { count(std::string("first_accessor_after_merge_") + ACC_NAME[c.first]); }
+inline bool same_chain(const Chain& a, const Chain& b) {
+  bool same = a.est == b.est;
+  for (int sd = 1; sd <= 3; ++sd) same = same && a.lb[sd] == b.lb[sd] && a.ub[sd] == b.ub[sd];
+  return same;
 }
 
 // lb(3) <= lb(2) <= lb(1) <= est <= ub(1) <= ub(2) <= ub(3), everything finite and >= 0.
 // `fam` is the key prefix (family / object kind), ctxf() the witness description (built on failure only).
 template<typename F> inline bool check_chain_lazy(const Chain& c, const char* fam, F&& ctxf) {
+  VF_CHECK(c.unstable.empty(), std::string(fam) + "|accessor-order|value-changes-when-read-again", ctxf() + " first accessor=" + ACC_NAME[c.first >= 0 ? c.first : 0] + ":" + c.unstable + " | second pass: " + c.to_string());
   bool finite = std::isfinite(c.est);
   for (int sd = 1; sd <= 3; ++sd) finite = finite && std::isfinite(c.lb[sd]) && std::isfinite(c.ub[sd]);
   VF_CHECK(finite, std::string(fam) + "|bounds|not-finite", ctxf() + " " + c.to_string());
